@@ -707,8 +707,11 @@ def compile_tr_family(tier):
     O5, A9, H = ("older", 5), ("after", 9), ("hash", "Sha256", "H")
     fam = [A, ("or", [A, B]), ("orw", [(9, A), (1, B)]), ("orw", [(1, A), (9, B)]), ("and", [A, B]), ("thresh", 2, [A, B, C]),
            ("or", [A, ("and", [B, O5])]), ("or", [A, ("or", [B, C])]), ("or", [("and", [A, B]), ("and", [C, O5])]),
-           ("thresh", 1, [A, B, C]), ("or", [A, ("and", [B, H])]), ("and", [A, ("or", [B, O5])])]
+           ("thresh", 1, [A, B, C]), ("or", [A, ("and", [B, H])]), ("and", [A, ("or", [B, O5])]),
+           # a trivially true alternative: no output may make it a signature-free leaf / branch
+           ("or", [A, ("T",)])]
     if tier != "quick":
+        fam += [("and", [A, ("or", [B, ("T",)])]), ("or", [A, ("F",)])]
         fam += [("thresh", 2, [A, B, O5]), ("orw", [(9, A), (1, ("and", [B, A9]))]), ("or", [("or", [A, B]), ("or", [C, D])]),
                 ("orw", [(1, ("and", [A, B])), (3, ("and", [C, O5])), (5, ("and", [D, H]))]),
                 ("thresh", 1, [("and", [A, B]), ("and", [C, O5]), D])]
